@@ -77,11 +77,50 @@ func registeredTemplates() []*tinkpb.KeyTemplate {
 		streamingaead.AES128CTRHMACSHA256Segment4KBKeyTemplate(), streamingaead.AES128CTRHMACSHA256Segment1MBKeyTemplate(),
 		streamingaead.AES256CTRHMACSHA256Segment4KBKeyTemplate(), streamingaead.AES256CTRHMACSHA256Segment1MBKeyTemplate(),
 	}
+	ts = append(ts, eciesTemplates()...)
 	for _, pt := range []*tinkpb.KeyTemplate{prf.HKDFSHA256PRFKeyTemplate()} {
 		for _, dt := range []*tinkpb.KeyTemplate{aead.AES128GCMKeyTemplate(), aead.AES256GCMNoPrefixKeyTemplate(), mac.HMACSHA256Tag128KeyTemplate(),
 			daead.AESSIVKeyTemplate(), aead.XChaCha20Poly1305KeyTemplate(), signature.ED25519KeyTemplate(), prf.HMACSHA256PRFKeyTemplate()} {
 			if t, err := keyderivation.CreatePRFBasedKeyTemplate(pt, dt); err == nil {
 				ts = append(ts, t)
+			}
+		}
+	}
+	return ts
+}
+
+// eciesTemplates: ECIES over every curve with every DEM the parameters accept (the template
+// functions of package hybrid cover two of them); the parameters serializer of ECIES calls the
+// DEM's own serializer and edits what it returns.
+func eciesTemplates() []*tinkpb.KeyTemplate {
+	var ts []*tinkpb.KeyTemplate
+	ft := formatTypeOfURL(tinkNS + "EciesAeadHkdfPrivateKey")
+	if ft == nil {
+		return nil
+	}
+	dems := []*tinkpb.KeyTemplate{aead.AES128GCMKeyTemplate(), aead.AES256GCMKeyTemplate(), aead.AES128CTRHMACSHA256KeyTemplate(),
+		aead.AES256CTRHMACSHA256KeyTemplate(), aead.XChaCha20Poly1305KeyTemplate(), daead.AESSIVKeyTemplate(), aead.AES256GCMSIVKeyTemplate(),
+		aead.ChaCha20Poly1305KeyTemplate()}
+	for _, dem := range dems {
+		for curve := 2; curve <= 5; curve++ { // NIST_P256, NIST_P384, NIST_P521, CURVE25519
+			for _, pt := range []tinkpb.OutputPrefixType{tinkpb.OutputPrefixType_TINK, tinkpb.OutputPrefixType_RAW} {
+				b := hybrid.ECIESHKDFAES128GCMKeyTemplate()
+				m := ft.New()
+				if proto.Unmarshal(b.Value, m.Interface()) != nil {
+					continue
+				}
+				if cm, cf := fieldByPath(m, "params.kem_params.curve_type"); cm != nil {
+					cm.Set(cf, protoreflect.ValueOfEnum(protoreflect.EnumNumber(curve)))
+				}
+				if curve == 5 {
+					if pm, pf := fieldByPath(m, "params.ec_point_format"); pm != nil {
+						pm.Set(pf, protoreflect.ValueOfEnum(2)) // COMPRESSED, as X25519 keys are stored
+					}
+				}
+				if dm, df := fieldByPath(m, "params.dem_params.aead_dem"); dm != nil {
+					dm.Set(df, protoreflect.ValueOfMessage(proto.Clone(dem).ProtoReflect()))
+				}
+				ts = append(ts, &tinkpb.KeyTemplate{TypeUrl: b.TypeUrl, Value: detMarshal(m.Interface()), OutputPrefixType: pt})
 			}
 		}
 	}
